@@ -677,7 +677,11 @@ func (e *SpecEnv) quant(n *SQuant) Value {
 		}
 		env = env.bind(v.Name, val)
 	}
-	body := env.evalBool(n.Body)
+	x.underBinder++
+	body := func() string {
+		defer func() { x.underBinder-- }()
+		return env.evalBool(n.Body)
+	}()
 	q := "forall"
 	if !n.Forall {
 		q = "exists"
@@ -870,6 +874,9 @@ func (e *SpecEnv) call(n *SCall) Value {
 		ks, ok := n.Args[0].(*SStr)
 		if !ok {
 			specFail("model(\"key\", args...)")
+		}
+		if x.underBinder > 0 {
+			specFail("model() cannot be used under a quantifier")
 		}
 		var args []Value
 		for _, a := range n.Args[1:] {
